@@ -217,9 +217,8 @@ def rule_a(ctx, out):
                 else:
                     reads -= 1   # an attribute of some object (e.g. the argparse namespace), not the module flag
     out.samples.append({"flag_reads": reads, "reading_functions": sorted(f"{a}.{b}" for a, b in readers)})
-    need = {"build_asm_bytecode", "is_push0", "generate_push_instruction"}
-    if not need <= {b for _, b in readers} and not out.findings:
-        raise AnalysisError(f"constants.{FLAG} is read in {sorted(b for _, b in readers)}; expected at least the parser, is_push0 and the push generator")
+    if len({b for _, b in readers} - {"parse_args", "<module>"}) < 2 and not out.findings:
+        raise AnalysisError(f"constants.{FLAG} is read in {sorted(b for _, b in readers)}; expected at least two reading functions (the predicate and the push generator)")
     # setter called before any parse / optimise call in execute_gasol on every path
     f = ctx.func("gasol_asm.execute_gasol")
     cfg = ctx.cfg(f)
